@@ -293,6 +293,17 @@ theorem step_inv {s : St} {done seen fetched : List Nat} (h : Inv s done seen fe
         exact h.complete _ k hr.2.1 hr.1
       · simpa [completesOf] using h
     · simpa [completesOf] using h
+  | drop k how =>
+    simp only [step, subOf, fetchOf, List.append_nil]
+    split
+    · rename_i c hc
+      split
+      · have hr := release_live s k (findConn_mem s k c hc) h.live_nodup
+        simp only [completesOf_append, hr.2.2, completesOf_cons_complete, completesOf_nil, List.nil_append,
+          root_eq_rootL s h.wfp]
+        exact h.complete _ k hr.2.1 hr.1
+      · simpa [completesOf] using h
+    · simpa [completesOf] using h
   | redirect k k' =>
     have hk' : k' ∉ seen := hf k' (by simp [subOf])
     simp only [step, subOf, fetchOf, List.append_nil]
